@@ -55,6 +55,8 @@ pub enum Case {
     /// one model state of one message type
     State { message: String, value: Val, encoding: String },
     LegacyArtifact { path: String },
+    /// an OCI archive written by another conforming implementation (published media types)
+    ForeignArchive { kind: u8, annotated: bool },
 }
 
 // ------------------------------------------------------------------------------------------
@@ -769,6 +771,11 @@ pub fn check_case(l: &mut Local, case: &Case) {
             });
             check_state(l, &schema, case);
         }
+        Case::ForeignArchive { kind, annotated } => {
+            l.evaluations += 1;
+            l.outcome(&("foreign", kind, annotated));
+            super::c20::check_foreign_layers(l, case, &[super::c20::LayerRep { kind: *kind, variant: 1, annotated: *annotated }], "foreign-archive");
+        }
         Case::LegacyArtifact { path } => {
             l.evaluations += 1;
             l.transitions += 1;
@@ -905,6 +912,15 @@ pub fn run(ctx: &Ctx) -> Finish {
                 check_case(l, &case);
             } else {
                 l.bump("legacy_artifact_files_absent", 1);
+            }
+        }
+    });
+    // 4. archives written by another conforming implementation (published media types and annotation keys)
+    ctx.seq(|l| {
+        for kind in 0..4u8 {
+            for annotated in [false, true] {
+                l.states += 1;
+                check_case(l, &Case::ForeignArchive { kind, annotated });
             }
         }
     });
